@@ -38,6 +38,7 @@ def innermost_loop(f, n):
 def run(fb, rep, tier):
     _run(fb, rep, tier)
     verdicts_and_bounds(fb, rep)
+    objective_sign_tests(fb, rep)
     dual_transfer(fb, rep)
 
 
@@ -326,3 +327,75 @@ def dual_transfer(fb, rep):
                           'the branch makes %s basic and sets r[%s] = 0 but leaves the dual of the re-inserted row as it was computed for the other case: the returned duals violate r = c - A^T y' % (sorted(bv & rv)[0], sorted(bv & rv)[0]))
     if k < 8:
         raise AnalysisBroken('R08.7: only %d basic-and-zero-reduced-cost branches found in the post-steps' % k)
+
+
+def objective_sign_tests(fb, rep):
+    """R08.8: the simplifier reasons about "does this column want to grow or to shrink"; that depends on the optimisation sense, which is why the
+    reductions read the objective as maxObj() (the coefficient of the equivalent maximisation problem) and the post-steps through
+    `sense == MINIMIZE ? obj : -obj`.  A sign test (comparison with zero, directly or through GT/LT/GE/LE) on a value that was computed from the
+    raw coefficient obj() ignores the sense: for one of the two senses an unbounded column is taken for a bounded one and vice versa."""
+    rep.rule('R08.8', 'in the simplifier a sign test on an objective coefficient reads it sense-normalised (maxObj() or a sense ternary), never as raw obj()', floor=10)
+    SENSE = re.compile(r'MINIMIZE|MAXIMIZE|maxSense|m_thesense')
+    k = 0
+    ctl = 0
+    for f in sorted(fb.funcs.values(), key=lambda g: (g.file, g.line, g.name)):
+        isctl = f.name.startswith('verif_ctl::raw_objective_sign_test')
+        if not (isctl or (f.file.endswith(('spxmainsm.hpp', 'spxmainsm.h')) and f.name.startswith('soplex::'))) or not f.nodes:
+            continue
+
+        def raw(e):
+            """does e contain a raw obj() read that is not inside a sense ternary?"""
+            for x in e.walk():
+                if x.is_call() and x.short == 'obj' and x.k == 'CXXMemberCallExpr':
+                    if not any(a.k == 'ConditionalOperator' and a.kid('cond') is not None and SENSE.search(render(a.kid('cond'))) for a in f.ancestors(x)):
+                        return True
+            return False
+
+        def normalised(e):
+            return any(x.is_call() and x.short == 'maxObj' for x in e.walk())
+
+        rawloc, normloc = set(), set()
+        for x in f.nodes:
+            if x.k == 'VarDecl' and x.c:
+                (rawloc if raw(x.kids[0]) else normloc if normalised(x.kids[0]) else set()).add(x.u)
+            if x.k == 'BinaryOperator' and x.o == '=' and strip(x.kids[0]).k == 'DeclRefExpr' and strip(x.kids[0]).dk == 'local':
+                if raw(x.kids[1]):
+                    rawloc.add(strip(x.kids[0]).u)
+        rawloc -= normloc
+
+        def tainted(e):
+            return raw(e) or any(y.k == 'DeclRefExpr' and y.u in rawloc for y in e.walk())
+
+        def norm_use(e):
+            return normalised(e) or any(y.k == 'DeclRefExpr' and y.u in normloc for y in e.walk())
+
+        for n in f.nodes:
+            if f.in_assert(n):
+                continue
+            operand = None
+            if n.k == 'BinaryOperator' and n.o in ('<', '>', '<=', '>='):
+                a, b = n.kids
+                if render(strip(b)).replace('(double)', '').strip('()') in ('0', '0.0'):
+                    operand = a
+                elif render(strip(a)).replace('(double)', '').strip('()') in ('0', '0.0'):
+                    operand = b
+            elif n.k == 'CallExpr' and n.short in ('GT', 'LT', 'GE', 'LE') and len(n.args()) >= 2:
+                a, b = n.args()[0], n.args()[1]
+                if render(strip(b)).replace('(double)', '').strip('()') in ('0', '0.0'):
+                    operand = a
+            if operand is None:
+                continue
+            if tainted(operand):
+                if isctl:
+                    ctl += 1
+                    continue
+                k += 1
+                rep.bad('R08.8', '%s|sign-test(%s)' % (f.name.replace('soplex::', '')[:60], render(operand)[:30]), '%s:%d' % (f.file, n.l),
+                        '`%s` tests the sign of a value computed from the raw objective coefficient obj(): the test means the opposite for a maximisation problem; '
+                        'the simplifier reads maxObj() (or `sense == MINIMIZE ? obj : -obj`) wherever the direction of improvement matters' % render(n)[:70])
+            elif norm_use(operand) and not isctl:
+                k += 1
+                rep.ok('R08.8', '%s|sign-test(%s)#%d' % (f.name.replace('soplex::', '')[:60], render(operand)[:30], k), '%s:%d' % (f.file, n.l), 'sense-normalised')
+    if ctl < 1:
+        raise AnalysisBroken('R08.8: the positive control (raw_objective_sign_test) did not fire')
+    rep.ok('R08.8', 'control|raw_objective_sign_test', 'units/controls.cpp', 'positive control fires', nontrivial=False)
